@@ -6,6 +6,8 @@
 //! centroid sets; ordinary data and data with a large common offset).
 //! Search: oracles written from the property text (exhaustive nearest-centroid search, cluster
 //! means/sizes recomputed from the final labels), never from the model or the implementation.
+//! Family predict-exact-near-tie (f32 and f64): fitted models on an integer lattice, queries whose two nearest
+//! centroids are at squared distances N, N+1 (adjacent floats), decided in i128 with zero tolerance.
 use serde_json::{json, Value};
 use smartcore::algorithm::neighbour::bbd_tree::{BBDTree, VerifBBDNode};
 use smartcore::cluster::kmeans::{KMeans, KMeansParameters, VerifKMeansSeeding, VERIF_KMEANS_SEEDING};
@@ -1011,10 +1013,476 @@ fn check_twin_centroids(out: &mut Out, cents: &[Vec<f64>], x: &[Vec<f64>]) {
     }
 }
 
+// ------------------------------------------------------------------------------------------
+// predict-exact-near-tie: "Predicting assigns every row to a centroid at minimal Euclidean distance",
+// decided with an EXACT oracle (i128, no tolerance) on inputs where the two nearest centroids of a query
+// are at squared distances N and N + delta (delta = 1, 2, 3) with N in the top binade of the integers the
+// float type counts exactly ([2^23, 2^24) for f32, [2^52, 2^53) for f64): there N and N + 1 are ADJACENT
+// floats, so any monotone but non-injective post-processing of the squared distance (a square root, a
+// narrowing conversion, a division) merges them, and an arg-min over the merged values keeps the
+// lower-index centroid even when the higher-index one is strictly closer.
+//
+// Everything lives on an integer lattice scaled by a power of two 2^e (scaling by a power of two commutes
+// with every operation involved).  The model is FITTED with k = number of distinct rows, so every
+// centroid is a data row (k-means++ never picks a zero-mass row, Lloyd leaves singletons and groups of
+// duplicates where they are); centroids and their order are read from the fitted model's serde form.
+// Soundness of the verdict (no false alarm) does not rest on that expectation: per query the oracle is
+// applied only if, for EVERY centroid of the fitted model, the squared distance is either
+//   * exactly computable in the float type: integer lattice coordinates below the exact-integer limit L
+//     (2^24 / 2^53), hence exact differences, and exact squared distance < L, hence every square and every
+//     partial sum is an integer below L — the implementation's value IS the exact value; or
+//   * far: exact squared distance >= 4 L.  Differences are still exact; four roundings of squares and
+//     sums lose a relative 5 * 2^-24 at most, so the computed value stays above L, i.e. above every
+//     exactly computed one: a far centroid can never win the comparison, nor tie.
+// Queries that do not qualify are skipped and counted.
+// ------------------------------------------------------------------------------------------
+trait Width: smartcore::math::num::RealNumber + std::iter::Sum + serde::Serialize + serde::de::DeserializeOwned {
+    const BITS: u32;
+    /// exact-integer limit of the type: 2^24 / 2^53
+    const LIMIT: i128;
+    fn of(v: f64) -> Self;
+    fn to64(self) -> f64;
+    /// do the correctly rounded square roots of the two integers (both below LIMIT) coincide in this type?
+    fn sqrt_merges(a: i128, b: i128) -> bool;
+}
+impl Width for f32 {
+    const BITS: u32 = 32;
+    const LIMIT: i128 = 1 << 24;
+    fn of(v: f64) -> f32 {
+        v as f32
+    }
+    fn to64(self) -> f64 {
+        self as f64
+    }
+    fn sqrt_merges(a: i128, b: i128) -> bool {
+        (a as f32).sqrt() == (b as f32).sqrt()
+    }
+}
+impl Width for f64 {
+    const BITS: u32 = 64;
+    const LIMIT: i128 = 1 << 53;
+    fn of(v: f64) -> f64 {
+        v
+    }
+    fn to64(self) -> f64 {
+        self
+    }
+    fn sqrt_merges(a: i128, b: i128) -> bool {
+        (a as f64).sqrt() == (b as f64).sqrt()
+    }
+}
+
+#[derive(Clone, Debug)]
+struct NearTie {
+    width: u32,
+    /// the lattice is 2^scale_exp * Z^4
+    scale_exp: i32,
+    data: Vec<Vec<i64>>,
+    k: usize,
+    max_iter: usize,
+    queries: Vec<Vec<i64>>,
+}
+impl NearTie {
+    fn to_json(&self, as_fitted: Option<&[Vec<i128>]>) -> Value {
+        let fitted: Value = match as_fitted {
+            Some(c) => json!(c.iter().map(|r| r.iter().map(|v| *v as i64).collect::<Vec<i64>>()).collect::<Vec<_>>()),
+            None => Value::Null,
+        };
+        json!({
+            "entry": "predict-exact-near-tie",
+            "width": self.width,
+            "scale_exp": self.scale_exp,
+            "data": self.data,
+            "k": self.k,
+            "max_iter": self.max_iter,
+            "queries": self.queries,
+            "centroids_as_fitted": fitted,
+            "repeat": 64,
+            "note": "all numbers are integer lattice coordinates, the float value is coordinate * 2^scale_exp in the given width (f32/f64); fit(data, k, max_iter) then predict(queries); centroids_as_fitted = centroid order of the failing fit (the seeding is drawn from an unseeded generator): the replay first evaluates a model with exactly these centroids, then up to `repeat` fresh fits",
+        })
+    }
+    fn from_json(v: &Value) -> NearTie {
+        let ints = |x: &Value| -> Vec<Vec<i64>> {
+            x.as_array()
+                .map(|a| a.iter().map(|r| r.as_array().map(|r| r.iter().map(|t| t.as_i64().unwrap_or(0)).collect()).unwrap_or_default()).collect())
+                .unwrap_or_default()
+        };
+        NearTie {
+            width: v["width"].as_u64().unwrap_or(64) as u32,
+            scale_exp: v["scale_exp"].as_i64().unwrap_or(0) as i32,
+            data: ints(&v["data"]),
+            k: v["k"].as_u64().unwrap_or(2) as usize,
+            max_iter: v["max_iter"].as_u64().unwrap_or(100) as usize,
+            queries: ints(&v["queries"]),
+        }
+    }
+    fn floats<T: Width>(&self, rows: &[Vec<i64>]) -> Vec<Vec<T>> {
+        let s = (2.0f64).powi(self.scale_exp);
+        // |coordinate| < 2^32 and s is a power of two: the f64 product is exact; the conversion to the width is
+        // exact for every coordinate below the width's exact-integer limit (checked by the caller's guard)
+        rows.iter().map(|r| r.iter().map(|v| T::of(*v as f64 * s)).collect()).collect()
+    }
+}
+
+#[derive(Default, Debug)]
+struct NearTieStats {
+    queries_decided: usize,
+    queries_skipped: usize,
+    /// some decided query has a unique nearest centroid whose squared distance has the same square root (in
+    /// the width) as that of a lower-label centroid: the geometry the family is built to reach
+    sensitive: bool,
+    centroids_are_rows: bool,
+}
+enum NearTieOutcome {
+    Decided(NearTieStats),
+    Skipped(&'static str),
+    /// description, centroids (lattice units) in label order
+    Bad(String, Vec<Vec<i128>>),
+}
+
+fn nt_sqd(a: &[i128], b: &[i128]) -> i128 {
+    a.iter().zip(b.iter()).map(|(x, y)| (x - y) * (x - y)).sum()
+}
+
+/// the clause, evaluated exactly on one model
+fn nt_check_model<T: Width>(c: &NearTie, model: &KMeans<T>) -> NearTieOutcome {
+    let unit = (2.0f64).powi(-c.scale_exp);
+    let v = match serde_json::to_value(model) {
+        Ok(v) => v,
+        Err(_) => return NearTieOutcome::Skipped("model-not-serialisable"),
+    };
+    let rows = match v["centroids"].as_array() {
+        Some(r) => r,
+        None => return NearTieOutcome::Skipped("model-shape"),
+    };
+    if v["k"].as_u64() != Some(c.k as u64) || rows.len() != c.k {
+        return NearTieOutcome::Skipped("model-shape");
+    }
+    let dim = c.data[0].len();
+    let mut cents: Vec<Vec<i128>> = vec![];
+    for r in rows {
+        let r = match r.as_array() {
+            Some(r) if r.len() == dim => r,
+            _ => return NearTieOutcome::Skipped("model-shape"),
+        };
+        let mut row = vec![];
+        for x in r {
+            // a non-finite number serialises as null
+            let u = match x.as_f64() {
+                Some(f) => f * unit,
+                None => return NearTieOutcome::Skipped("centroid-not-on-lattice"),
+            };
+            if !(u.is_finite() && u.fract() == 0.0 && u.abs() < T::LIMIT as f64) {
+                return NearTieOutcome::Skipped("centroid-not-on-lattice");
+            }
+            row.push(u as i128);
+        }
+        cents.push(row);
+    }
+    let mut stats = NearTieStats::default();
+    {
+        let mut a: Vec<Vec<i128>> = cents.clone();
+        let mut b: Vec<Vec<i128>> = c.data.iter().map(|r| r.iter().map(|v| *v as i128).collect()).collect();
+        a.sort();
+        b.sort();
+        b.dedup();
+        stats.centroids_are_rows = a == b;
+    }
+    let q = DenseMatrixOf::<T>::from_2d_vec(&c.floats::<T>(&c.queries));
+    let lab: Vec<f64> = match guard(|| model.predict(&q).map(|v| v.iter().map(|l| l.to64()).collect::<Vec<f64>>())) {
+        Err(e) => return NearTieOutcome::Bad(format!("predict panicked: {}", e), cents),
+        Ok(Err(e)) => return NearTieOutcome::Bad(format!("predict returned Err: {}", e), cents),
+        Ok(Ok(l)) => l,
+    };
+    if lab.len() != c.queries.len() {
+        return NearTieOutcome::Bad(format!("{} predictions for {} rows", lab.len(), c.queries.len()), cents);
+    }
+    let lim = T::LIMIT;
+    for (qi, qrow) in c.queries.iter().enumerate() {
+        let qv: Vec<i128> = qrow.iter().map(|v| *v as i128).collect();
+        let ds: Vec<i128> = cents.iter().map(|ce| nt_sqd(&qv, ce)).collect();
+        let representable = qv.iter().all(|v| v.abs() < lim) && cents.iter().all(|ce| ce.iter().zip(qv.iter()).all(|(x, y)| (x - y).abs() < lim));
+        if !representable || ds.iter().any(|d| *d >= lim && *d < 4 * lim) {
+            stats.queries_skipped += 1;
+            continue;
+        }
+        stats.queries_decided += 1;
+        let l = lab[qi];
+        let li = l as usize;
+        if !(l >= 0.0) || li as f64 != l || li >= c.k {
+            return NearTieOutcome::Bad(format!("f{}: prediction {} for row {:?} is not a cluster index", T::BITS, l, qrow), cents);
+        }
+        let dmin = *ds.iter().min().unwrap();
+        let jmin = ds.iter().position(|d| *d == dmin).unwrap();
+        if ds[li] != dmin {
+            return NearTieOutcome::Bad(
+                format!(
+                    "f{}: row {:?} is assigned to centroid {} = {:?} at squared distance {}, but centroid {} = {:?} is strictly closer, at squared distance {} (exact integers in lattice units 2^{}; both are exactly representable in f{}, as is every intermediate value of the computation); squared distances to all centroids: {:?}",
+                    T::BITS, qrow, li, cents[li], ds[li], jmin, cents[jmin], dmin, c.scale_exp, T::BITS, ds
+                ),
+                cents,
+            );
+        }
+        if ds.iter().filter(|d| **d == dmin).count() == 1 && (0..jmin).any(|j| ds[j] < lim && T::sqrt_merges(ds[j], dmin)) {
+            stats.sensitive = true;
+        }
+    }
+    NearTieOutcome::Decided(stats)
+}
+type DenseMatrixOf<T> = smartcore::linalg::naive::dense_matrix::DenseMatrix<T>;
+
+/// fit (unseeded k-means++: the label order is whatever this fit drew) and evaluate the clause on the fitted model
+fn nt_fit_and_check<T: Width>(c: &NearTie) -> NearTieOutcome {
+    let x = DenseMatrixOf::<T>::from_2d_vec(&c.floats::<T>(&c.data));
+    let r = guard(|| KMeans::<T>::fit(&x, KMeansParameters::default().with_k(c.k).with_max_iter(c.max_iter)));
+    VERIF_KMEANS_SEEDING.with(|r| r.borrow_mut().clear());
+    match r {
+        // panics / errors of fit are the business of the fit families
+        Err(_) => NearTieOutcome::Skipped("fit-panicked"),
+        Ok(Err(_)) => NearTieOutcome::Skipped("fit-returned-err"),
+        Ok(Ok(model)) => nt_check_model::<T>(c, &model),
+    }
+}
+/// the clause on a model with GIVEN centroids in the given label order (rebuilt through serde; deterministic)
+fn nt_check_given<T: Width>(c: &NearTie, cents: &[Vec<i64>]) -> NearTieOutcome {
+    let cf: Vec<Vec<f64>> = c.floats::<T>(cents).iter().map(|r| r.iter().map(|v| v.to64()).collect()).collect();
+    let k = cents.len();
+    match serde_json::from_value::<KMeans<T>>(json!({"k": k, "_y": [], "size": vec![0usize; k], "_distortion": 0.0, "centroids": cf})) {
+        Ok(m) => nt_check_model::<T>(&NearTie { k, ..c.clone() }, &m),
+        Err(_) => NearTieOutcome::Skipped("model-not-deserialisable"),
+    }
+}
+
+fn nt_isqrt(n: u64) -> u64 {
+    let mut r = (n as f64).sqrt() as u64;
+    while r * r > n {
+        r -= 1;
+    }
+    while (r + 1) * (r + 1) <= n {
+        r += 1;
+    }
+    r
+}
+/// r = x^2 + y^2 by exhaustive search over x (random starting point, so that different representations are found)
+fn nt_two_squares(rng: &mut Rng, r: u64) -> Option<(u64, u64)> {
+    let top = nt_isqrt(r);
+    let start = rng.next_u64() % (top + 1);
+    for i in 0..=top {
+        let x = (start + i) % (top + 1);
+        let rest = r - x * x;
+        let y = nt_isqrt(rest);
+        if y * y == rest {
+            return Some((x, y));
+        }
+    }
+    None
+}
+/// n = sum of four squares (Lagrange): two coordinates are chosen, the rest is searched as a sum of two squares;
+/// `tight`: the second coordinate is taken next to its maximum, which keeps the remainder below 2^30 for n < 2^53
+fn nt_four_squares(rng: &mut Rng, n: u64, tight: bool) -> Option<[u64; 4]> {
+    // n = 0 mod 8 forces all four coordinates to be even (squares are 0, 1, 4 mod 8): divide out
+    if n > 0 && n % 8 == 0 {
+        return nt_four_squares(rng, n / 4, tight).map(|w| [2 * w[0], 2 * w[1], 2 * w[2], 2 * w[3]]);
+    }
+    for attempt in 0..200 {
+        let top = nt_isqrt(n);
+        let x1 = match rng.below(4) {
+            0 => top - (rng.next_u64() % 4).min(top),
+            _ => rng.next_u64() % (top + 1),
+        };
+        let r1 = n - x1 * x1;
+        let top2 = nt_isqrt(r1);
+        let x2 = if tight || attempt >= 100 { top2 - (rng.next_u64() % 4).min(top2) } else { rng.next_u64() % (top2 + 1) };
+        let r2 = r1 - x2 * x2;
+        if r2 >= 1 << 30 {
+            continue;
+        }
+        if let Some((x3, x4)) = nt_two_squares(rng, r2) {
+            return Some([x1, x2, x3, x4]);
+        }
+    }
+    None
+}
+fn nt_signed_perm(rng: &mut Rng, v: [u64; 4]) -> Vec<i64> {
+    let mut w: Vec<i64> = v.iter().map(|x| if rng.bool() { *x as i64 } else { -(*x as i64) }).collect();
+    rng.shuffle(&mut w);
+    w
+}
+fn nt_four_squares_signed(rng: &mut Rng, n: u64, tight: bool) -> Option<Vec<i64>> {
+    let w = nt_four_squares(rng, n, tight)?;
+    Some(nt_signed_perm(rng, w))
+}
+/// a random integer 4-vector whose squared length lies in [lo, hi)
+fn nt_random_vector(rng: &mut Rng, lo: u64, hi: u64) -> Option<Vec<i64>> {
+    for _ in 0..50 {
+        let target = lo as f64 + (hi - lo) as f64 * rng.unit();
+        let mut g: Vec<f64> = (0..4).map(|_| rng.normal()).collect();
+        // now and then a vector in a coordinate plane / along an axis
+        if rng.chance(0.25) {
+            for _ in 0..rng.usize_in(1, 3) {
+                let j = rng.below(4);
+                g[j] = 0.0;
+            }
+        }
+        let len2: f64 = g.iter().map(|x| x * x).sum();
+        if len2 < 1e-6 {
+            continue;
+        }
+        let s = (target / len2).sqrt();
+        let v: Vec<i64> = g.iter().map(|x| (x * s).round() as i64).collect();
+        let n: u64 = v.iter().map(|x| (x * x) as u64).sum();
+        if n >= lo && n < hi {
+            return Some(v);
+        }
+    }
+    None
+}
+
+/// One case: query q, centroids a = q + u (|u|^2 = N) and b = q + v (|v|^2 = N + delta), the mirrored query
+/// q' = q + u + v (squared distances N + delta to a and N to b: whichever of a, b gets the higher label, one of
+/// the two queries has its strictly nearer centroid there), optionally a third centroid at N + delta + delta',
+/// and 0..4 far centroids (one coordinate 2^15.. / 2^30.. away, squared distance >= 2^30 / 2^60 from both queries).
+fn gen_near_tie(rng: &mut Rng, width: u32) -> Option<(NearTie, u64, u64)> {
+    let (bits, big, small): (u32, i64, i64) = if width == 32 { (24, 1 << 15, 1 << 12) } else { (53, 1 << 30, 1 << 26) };
+    let (lo, hi) = (1u64 << (bits - 1), 1u64 << bits);
+    let tight = width == 64;
+    let delta: u64 = match rng.below(10) {
+        0..=6 => 1,
+        7..=8 => 2,
+        _ => 3,
+    };
+    let (u, v, n) = match rng.below(3) {
+        0 => {
+            let u = nt_random_vector(rng, lo, hi - 8)?;
+            let n: u64 = u.iter().map(|x| (x * x) as u64).sum();
+            let v = nt_four_squares_signed(rng, n + delta, tight)?;
+            (u, v, n)
+        }
+        1 => {
+            let v = nt_random_vector(rng, lo + 8, hi - 4)?;
+            let n: u64 = v.iter().map(|x| (x * x) as u64).sum::<u64>() - delta;
+            let u = nt_four_squares_signed(rng, n, tight)?;
+            (u, v, n)
+        }
+        _ => {
+            let n = match rng.below(8) {
+                0 => lo + rng.next_u64() % 64,
+                1 => hi - 8 - rng.next_u64() % 64,
+                _ => lo + rng.next_u64() % (hi - lo - 8),
+            };
+            let u = nt_four_squares_signed(rng, n, tight)?;
+            let v = nt_four_squares_signed(rng, n + delta, tight)?;
+            (u, v, n)
+        }
+    };
+    let origin: Vec<i64> = if rng.bool() { vec![0; 4] } else { (0..4).map(|_| if width == 32 { rng.int(-1000, 1000) } else { rng.int(-(1 << 20), 1 << 20) }).collect() };
+    let at = |w: &[i64]| -> Vec<i64> { (0..4).map(|j| origin[j] + w[j]).collect() };
+    let mut rows: Vec<Vec<i64>> = vec![at(&u), at(&v)];
+    if rng.chance(0.3) {
+        let d2 = 1 + rng.next_u64() % 3;
+        if n + delta + d2 < hi {
+            if let Some(w) = nt_four_squares_signed(rng, n + delta + d2, tight) {
+                rows.push(at(&w));
+            }
+        }
+    }
+    for _ in 0..rng.below(5) {
+        let mut w: Vec<i64> = (0..4).map(|_| rng.int(-small, small)).collect();
+        let j = rng.below(4);
+        w[j] = (big + rng.int(0, big - 1)) * if rng.bool() { 1 } else { -1 };
+        rows.push(at(&w));
+    }
+    rows.sort();
+    rows.dedup();
+    let k = rows.len();
+    // duplicates of rows (their mean is the row itself), random row order
+    for _ in 0..rng.below(3) {
+        let r = rows[rng.below(rows.len())].clone();
+        rows.push(r);
+    }
+    rng.shuffle(&mut rows);
+    let uv: Vec<i64> = (0..4).map(|j| u[j] + v[j]).collect();
+    let mut queries = vec![origin.clone(), at(&uv)];
+    if rng.bool() {
+        queries.swap(0, 1);
+    }
+    let scale_exp = if rng.bool() { 0 } else if width == 32 { rng.int(-10, 4) as i32 } else { rng.int(-26, 10) as i32 };
+    let max_iter = *rng.pick(&[1usize, 2, 10, 100]);
+    Some((NearTie { width, scale_exp, data: rows, k, max_iter, queries }, n, delta))
+}
+
+fn check_near_tie<T: Width>(out: &mut Out, rng: &mut Rng) -> bool {
+    let tag = format!("search:predict-exact-near-tie:f{}", T::BITS);
+    let (c, _n, delta) = match gen_near_tie(rng, T::BITS) {
+        Some(x) => x,
+        None => {
+            out.count(&format!("{}:no-decomposition-found(case dropped)", tag));
+            return false;
+        }
+    };
+    let mut key: Vec<i64> = c.data.iter().flatten().cloned().collect();
+    key.extend(c.queries.iter().flatten());
+    key.extend(&[c.width as i64, c.scale_exp as i64, c.k as i64, c.max_iter as i64]);
+    out.eval(hash_of(&key), true);
+    out.count(&tag);
+    out.count(&format!("{}:delta={}", tag, delta));
+    out.count(&format!("{}:k={}", tag, c.k));
+    match nt_fit_and_check::<T>(&c) {
+        NearTieOutcome::Decided(s) => {
+            if s.queries_decided > 0 {
+                out.count(&format!("{}:decided-exactly(i128, zero tolerance)", tag));
+            }
+            if s.queries_skipped > 0 {
+                out.count(&format!("{}:query-skipped(a squared distance neither exactly computable nor far)", tag));
+            }
+            if s.sensitive {
+                out.count(&format!("{}:nearer-centroid-has-higher-label-and-equal-sqrt", tag));
+            }
+            if !s.centroids_are_rows {
+                out.count(&format!("{}:centroids-differ-from-the-distinct-rows", tag));
+            }
+            false
+        }
+        NearTieOutcome::Skipped(why) => {
+            out.count(&format!("{}:skipped({})", tag, why));
+            false
+        }
+        NearTieOutcome::Bad(what, fitted) => {
+            out.fail("predict_min_distance_exact", &what, c.to_json(Some(&fitted)));
+            true
+        }
+    }
+}
+
+fn replay_near_tie<T: Width>(inp: &Value) -> Option<(String, String)> {
+    let c = NearTie::from_json(inp);
+    if c.data.is_empty() || c.data[0].is_empty() || c.queries.is_empty() {
+        return None;
+    }
+    let bad = |o: NearTieOutcome| match o {
+        NearTieOutcome::Bad(what, _) => Some(("predict_min_distance_exact".to_string(), what)),
+        _ => None,
+    };
+    if inp["centroids_as_fitted"].is_array() {
+        let cents = NearTie::from_json(&json!({"data": inp["centroids_as_fitted"]})).data;
+        if let Some(b) = bad(nt_check_given::<T>(&c, &cents)) {
+            return Some(b);
+        }
+    }
+    (0..inp["repeat"].as_u64().unwrap_or(64)).find_map(|_| bad(nt_fit_and_check::<T>(&c)))
+}
+
 fn replay(path: &str) -> i32 {
     let v = read_replay(path);
     let inp = if v.get("input").is_some() { v["input"].clone() } else { v.clone() };
     let bad: Option<(String, String)> = match inp["entry"].as_str().unwrap_or("") {
+        "predict-exact-near-tie" => {
+            if inp["width"].as_u64() == Some(32) {
+                replay_near_tie::<f32>(&inp)
+            } else {
+                replay_near_tie::<f64>(&inp)
+            }
+        }
         "assign" => {
             let data = rows_from_json(&inp["data"]);
             let cs = rows_from_json(&inp["centroids"]);
@@ -1129,7 +1597,7 @@ fn main() {
     let mut rng = Rng::new(a.seed);
     let mut out = Out::new(
         "C12",
-        "search case = (data set, centroid set) for the assignment step, (data set, k, max_iter, one draw of the unseeded seeding) for fit/predict; non-trivial: k >= 2 and >= 2 distinct rows; distinct by hash of (data, centroids) resp. (data, k, max_iter) — repeated fits of one data set count once. api-trait twin case = (data, k, max_iter, query rows) fitted through smartcore::api::UnsupervisedEstimator and through the inherent fit, or a model with given centroids: Predictor::predict must equal the inherent predict bit for bit on the same model",
+        "search case = (data set, centroid set) for the assignment step, (data set, k, max_iter, one draw of the unseeded seeding) for fit/predict; non-trivial: k >= 2 and >= 2 distinct rows; distinct by hash of (data, centroids) resp. (data, k, max_iter) — repeated fits of one data set count once. api-trait twin case = (data, k, max_iter, query rows) fitted through smartcore::api::UnsupervisedEstimator and through the inherent fit, or a model with given centroids: Predictor::predict must equal the inherent predict bit for bit on the same model. predict-exact-near-tie case = (float width, lattice data with k = number of distinct rows, max_iter, two query rows, one draw of the unseeded seeding), always non-trivial, distinct by hash of all of it",
     );
 
     // ---- corpus: the unit-test inputs and hand-made tie geometries ----
@@ -1478,6 +1946,22 @@ fn main() {
                 } else {
                     out.fail(&clause, &what, input);
                 }
+            }
+        }
+    }
+    // ---- search: predict-exact-near-tie, f32 and f64, exact oracle (own stream derived from the seed: the
+    // streams of the other sections, hence their corpus and replays, are unchanged) ----
+    {
+        let mut nrng = Rng::new(a.seed ^ 0x12f1_7e4a_c12d);
+        let per_width = if a.thorough { 4000 } else { 400 };
+        let (mut bad32, mut bad64) = (0, 0);
+        for _ in 0..per_width {
+            // a handful of failing inputs per width is enough for the report
+            if bad32 < 3 && check_near_tie::<f32>(&mut out, &mut nrng) {
+                bad32 += 1;
+            }
+            if bad64 < 3 && check_near_tie::<f64>(&mut out, &mut nrng) {
+                bad64 += 1;
             }
         }
     }
